@@ -175,6 +175,31 @@ func c16TCPSeg(mode, maxFrames int) func() {
 					cuts = append(cuts, i)
 				}
 			}
+		case 3:
+			// frames around and far beyond the 4096-octet buffer of the stream reader, each followed
+			// by small frames; cut positions around every boundary, MSS-sized segments, coalesced
+			size := []int{4090, 4096, 4097, 8200, 65535}[mc.Choose(5, mc.Free)]
+			raw := make(cemi.LRaw, size-6-4-1)
+			for i := range raw {
+				raw[i] = byte(i*31 + 7)
+			}
+			bigf := pack(&knxnet.TunnelReq{Channel: 1, SeqNumber: 9, Payload: &cemi.LRawReq{LRaw: raw}})
+			if len(bigf) != size {
+				panic(fmt.Sprintf("big frame has %d octets, want %d", len(bigf), size))
+			}
+			stream = append(append(append(stream, fs[1]...), bigf...), fs[2]...)
+			stream = append(stream, fs[0]...)
+			want = [][]byte{fs[1], bigf, fs[2], fs[0]}
+			a := len(fs[1])
+			opts := [][]int{nil, {a}, {a + 6}, {a + 4095}, {a + 4096}, {a + 4097}, {a + size - 1}, {a + size}, {a + size + 1}, {a + 6, a + size}, {a + 4096, a + size + 6}}
+			k := mc.Choose(len(opts)+1, mc.Free)
+			if k < len(opts) {
+				cuts = opts[k]
+			} else {
+				for c := 1460; c < len(stream); c += 1460 {
+					cuts = append(cuts, c)
+				}
+			}
 		case 2:
 			for i := 0; i < 50; i++ {
 				f := fs[i%6]
@@ -558,6 +583,7 @@ func init() {
 	reg("thorough", "C16-tcp-2cuts-upto4frames", "C16", 0, -1, c16TCPSeg(0, 4), true)
 	reg("both", "C16-tcp-large-frames-every-cut+dribble", "C16", 0, -1, c16TCPSeg(1, 0), true)
 	reg("both", "C16-tcp-flat50-dribble+coalesced", "C16", 0, -1, c16TCPSeg(2, 0), true)
+	reg("both", "C16-tcp-frames-4090..65535-octets", "C16", 0, -1, c16TCPSeg(3, 0), true)
 	reg("both", "C16-tcp-2cuts-1frame-P1", "C16", 1, 1, c16TCPSeg(0, 1), true)
 	reg("both", "C16-udp-histories-L3", "C16", 0, -1, c16History(false, 3), true)
 	reg("both", "C16-tcp-histories-L3", "C16", 0, -1, c16History(true, 3), true)
